@@ -11,10 +11,11 @@ try:
     hook_commits = [l.split()[0] for l in out.splitlines() if "verif hook" in l]
 except Exception:
     pass
+CLAIMED = set(open(os.path.join(HERE, "tools", "claimed.txt")).read().split())
 checks, na = [], []
 for p in props:
     i = p["id"]
-    if i in PROPS:
+    if i in PROPS and i in CLAIMED:
         s = PROPS[i]
         c = {"property_id": i, "quick_cmd": "./run %s quick" % i, "thorough_cmd": "./run %s thorough" % i,
              "evidence_file": "evidence/%s.json" % i, "replay_cmd_template": "./run replay {path}",
@@ -26,6 +27,8 @@ for p in props:
         na.append({"property_id": i, "reason": "check not built yet (work in progress; see DESIGN.md section 5/%s for the planned exploration)" % i})
 engines = {}
 for i, s in PROPS.items():
+    if i not in CLAIMED:
+        continue
     for j in s["quick"] + s.get("thorough", []):
         engines.setdefault(j["src"], set()).add(i)
 m = {"version": 1,
